@@ -31,10 +31,12 @@ import (
 	"sort"
 	"strings"
 	"sync/atomic"
+	"testing/fstest"
 	"time"
 
 	"github.com/risor-io/risor"
 	"github.com/risor-io/risor/compiler"
+	"github.com/risor-io/risor/importer"
 	"github.com/risor-io/risor/object"
 	"github.com/risor-io/risor/parser"
 	"github.com/risor-io/risor/vm"
@@ -68,7 +70,9 @@ type tickPlan struct {
 	oldCancel context.CancelFunc
 	flipped   bool // the current run's halt flag was seen set after cancelling the OLD context
 	ownSeen   bool
-	ownMissed bool // the invocation's own cancellation did not reach the halt flag within ownHaltWait
+	modBeh    map[string]int // what modbeh(name) returns during this invocation
+	skipBeh   int            // the first skipBeh calls of modbeh return 0 (modules pre-loaded by a reference)
+	ownMissed bool           // the invocation's own cancellation did not reach the halt flag within ownHaltWait
 }
 
 type session struct {
@@ -124,9 +128,34 @@ func tickBuiltin(_ context.Context, args ...object.Object) object.Object {
 	return object.Nil
 }
 
+func modbehBuiltin(_ context.Context, args ...object.Object) object.Object {
+	s := current
+	if s == nil || s.plan == nil || len(args) != 1 {
+		return object.NewInt(0)
+	}
+	p := s.plan
+	if p.skipBeh > 0 {
+		p.skipBeh--
+		return object.NewInt(0)
+	}
+	name, _ := args[0].(*object.String)
+	if name == nil {
+		return object.NewInt(0)
+	}
+	return object.NewInt(int64(p.modBeh[name.Value()]))
+}
+
 func newSession(kind string) *session {
 	if sharedCfg == nil {
-		sharedCfg = risor.NewConfig(risor.WithGlobals(map[string]any{"tick": object.NewBuiltin("tick", tickBuiltin)}))
+		globals := map[string]any{"tick": object.NewBuiltin("tick", tickBuiltin), "modbeh": object.NewBuiltin("modbeh", modbehBuiltin)}
+		names := risor.NewConfig(risor.WithGlobals(globals)).GlobalNames()
+		files := fstest.MapFS{}
+		for name, src := range moduleFiles() {
+			files[name] = &fstest.MapFile{Data: []byte(src)}
+		}
+		// one in-memory importer per process: it only caches compiled code, every import gets a new module object
+		im := importer.NewFSImporter(importer.FSImporterOptions{GlobalNames: names, SourceFS: files})
+		sharedCfg = risor.NewConfig(risor.WithGlobals(globals), risor.WithImporter(im))
 	}
 	return &session{kind: kind, codes: map[string]*compiler.Code{}, cfg: sharedCfg}
 }
@@ -324,6 +353,7 @@ type step struct {
 	I        int     `json:"i"`
 	Inv      inv     `json:"inv"`
 	XBefore  int     `json:"x_before"`
+	Loaded   string  `json:"loaded,omitempty"`
 	Got      outcome `json:"got"`
 	Want     outcome `json:"want"`
 	Mismatch string  `json:"mismatch,omitempty"` // symptom
@@ -354,8 +384,20 @@ func setupSource(kind string, x int) string {
 	return fmt.Sprintf("x := %d\n", x) + prelude() + "x\n"
 }
 
+// setupLoaded: the set-up of a reference whose VM has the given modules loaded already
+func setupLoaded(x int, loaded map[string]bool) string {
+	pre, _ := preloadLines(loaded)
+	return fmt.Sprintf("x := %d\n", x) + prelude() + pre + "x\n"
+}
+
+func modPlan(v *inv, p *tickPlan) {
+	if v.Flavor == "mod" && v.FailIn != "" {
+		p.modBeh = map[string]int{v.FailIn: v.ModB}
+	}
+}
+
 // reference: the same invocation on a fresh VM whose global x has the tracked value
-func reference(h *history, v *inv, x int) outcome {
+func reference(h *history, v *inv, x int, loaded map[string]bool) outcome {
 	ref := newSession(h.Session)
 	bg := context.Background()
 	fn, args, _ := callOf(v)
@@ -366,18 +408,22 @@ func reference(h *history, v *inv, x int) outcome {
 	if v.Beh == "cancelled" {
 		plan.ownK = int64(v.K)
 	}
+	modPlan(v, plan)
 	switch v.API {
 	case "RunCode":
 		return ref.invoke(ctx, "RunCode", runcodeSource(v.Inc, expr), false, "", nil, plan)
 	case "Run":
-		// whole-program semantics: the set-up (with the tracked x) and the piece as ONE program
-		return ref.invoke(ctx, "Run", fmt.Sprintf("x := %d\n", x)+prelude()+replPiece(h, v, x), false, "", nil, plan)
+		// whole-program semantics: the set-up (with the tracked x), the modules the session has loaded
+		// already, and the piece as ONE program
+		pre, n := preloadLines(loaded)
+		plan.skipBeh = n
+		return ref.invoke(ctx, "Run", fmt.Sprintf("x := %d\n", x)+prelude()+pre+replPiece(h, v, x), false, "", nil, plan)
 	default: // Call
 		api := "RunCode"
 		if h.Session == "repl" {
 			api = "Run"
 		}
-		if o := ref.invoke(bg, api, setupSource(h.Session, x), false, "", nil, nil); o.Err != "" || o.Harness != "" {
+		if o := ref.invoke(bg, api, setupLoaded(x, loaded), false, "", nil, nil); o.Err != "" || o.Harness != "" {
 			o.Harness = "reference set-up failed: " + o.Err + o.Harness
 			return o
 		}
@@ -405,6 +451,8 @@ func compare(got, want *outcome) string {
 			switch {
 			case strings.Contains(got.Err, "imports are disabled"):
 				return "unexpected-error-imports-disabled"
+			case strings.Contains(got.Err, "import cycle detected"):
+				return "unexpected-error-import-cycle"
 			case strings.Contains(got.Err, "already running"):
 				return "unexpected-error-vm-already-running"
 			case got.ErrKind == "canceled" || got.ErrKind == "deadline":
@@ -419,6 +467,9 @@ func compare(got, want *outcome) string {
 			return "missing-error"
 		}
 		if got.Err != want.Err {
+			if strings.Contains(got.Err, "import cycle detected") && !strings.Contains(want.Err, "import cycle detected") {
+				return "wrong-error-import-cycle"
+			}
 			return "wrong-error"
 		}
 	}
@@ -497,6 +548,7 @@ func runHistory(h *history) (res hres) {
 		return
 	}
 	x := setupX
+	loaded := map[string]bool{}
 	prevBeh := "value"
 	sawAbnormal := false
 	var steps []step
@@ -529,7 +581,13 @@ func runHistory(h *history) (res hres) {
 		}
 		ctxs = append(ctxs, ctxRec{cancel})
 		// reference first (it needs x as it is before the invocation)
-		st.Want = reference(h, v, x)
+		modPlan(v, plan)
+		if v.API != "RunCode" {
+			pre, _ := preloadLines(loaded)
+			st.Loaded = strings.ReplaceAll(strings.TrimSpace(strings.ReplaceAll(pre, "import ", "")), "\n", ",")
+		}
+		st.Want = reference(h, v, x, loaded)
+		loaded = loadedAfter(v, loaded)
 		switch v.API {
 		case "RunCode":
 			st.Got = s.invoke(ctx, "RunCode", runcodeSource(v.Inc, expr), v.SameCode, "", nil, plan)
@@ -639,6 +697,13 @@ func describe(h *history, r *hres) string {
 	for _, st := range r.Steps {
 		v := st.Inv
 		fmt.Fprintf(&b, "#%d %s %s/%s", st.I, v.API, v.Beh, v.Flavor)
+		if v.Flavor == "mod" {
+			what := "every module body behaves"
+			if v.FailIn != "" {
+				what = fmt.Sprintf("the body of module %s gets behaviour code %d from modbeh()", v.FailIn, v.ModB)
+			}
+			fmt.Fprintf(&b, " [imports module %s (%s); %s; modules loaded in the VM before, by the model: %s]", v.Mod, v.Where, what, st.Loaded)
+		}
 		if v.API == "Call" {
 			fn, args, _ := callOf(&v)
 			fmt.Fprintf(&b, " %s%v", fn, args)
